@@ -22,7 +22,7 @@ sys.exc_info() after the statement and after the call.  Oracle: CPython on the i
 """
 import re
 from vlib import e2, farm
-from props._g6_common import ConfirmCtx
+from props._g6_common import ConfirmCtx, run_diff, storm_note
 
 LEVEL = 'exploration'
 ENGINE = 'E2 diffexplore'
@@ -295,7 +295,7 @@ def run(ctx):
             parts.append(e2.Part(src, [e2.Func('t_' + name, tag(t), 'm')]))
         mods.append(e2.Mod('c22_%d' % (i // PER_MODULE), PRELUDE, parts, inputs, ext='.py', use_log=True))
     cc = ConfirmCtx(ctx, _keyfn)
-    st = e2.run_diff(cc, mods, keyfn=_keyfn, reach=REACH)
+    st = run_diff(cc, mods, keyfn=_keyfn, reach=REACH)
     behaviours, raised, returned = _reference_behaviours(srcs)
     cov = {
         'evaluations': st['evaluations'], 'distinct_nontrivial': behaviours,
@@ -311,6 +311,7 @@ def run(ctx):
         'samples': [{'tag': tag(fam[i]), 'function': srcs[i]} for i in (len(fam) // 9, len(fam) // 2, len(fam) - 7)],
         'exhaustive': True,
     }
+    storm_note(cov, st)
     return cov, ['statements with more than the bounded number of actions / nesting > 2 are not covered',
                  'tracebacks and interpreter-generated messages are not compared']
 
